@@ -549,3 +549,43 @@ Proof.
     destruct (one_facts (r mod 10) Ht) as (-> & _ & _).
     reflexivity.
 Qed.
+
+(* ---------------------------------------------------------------------------
+   Receiver independence of Time.From / Duration.From. *)
+Lemma time_from_spec v0 s :
+  time_from v0 s = match time_parse s with
+                   | Ok v => (v, Ok tt)
+                   | Err e => ((zero_instant, 0), Err e)
+                   | Panic => ((zero_instant, 0), Panic)
+                   end.
+Proof.
+  unfold time_from, time_from_gen, time_parse. destruct s as [|c r]; [reflexivity|].
+  destruct (from_time_string (c :: r)) as [[p sym]|e|]; cbn [obind]; try reflexivity.
+  destruct ((sym =? ch_plus) || (sym =? ch_minus))%N; reflexivity.
+Qed.
+Lemma dur_from_spec d0 s :
+  dur_from d0 s = match dur_parse s with
+                  | Ok d => (d, Ok tt)
+                  | Err e => (0, Err e)
+                  | Panic => (0, Panic)
+                  end.
+Proof.
+  unfold dur_from, dur_from_gen, dur_parse. destruct s as [|c r]; [reflexivity|].
+  destruct (from_time_string (c :: r)) as [[p sym]|e|]; cbn [obind]; try reflexivity.
+  destruct (sym =? ch_R)%N; reflexivity.
+Qed.
+(* histories on one receiver: after any sequence of calls, the last one decides *)
+Lemma time_from_history v0 ss s : fst (fold_left (fun v x => fst (time_from v x)) (ss ++ [s]) v0) = fst (fst (time_from v0 s)).
+Proof. rewrite fold_left_app. cbn [fold_left]. rewrite !time_from_spec. reflexivity. Qed.
+Lemma dur_from_history d0 ss s : fold_left (fun d x => fst (dur_from d x)) (ss ++ [s]) d0 = fst (dur_from d0 s).
+Proof. rewrite fold_left_app. cbn [fold_left]. rewrite !dur_from_spec. reflexivity. Qed.
+(* the resets are what makes this true: without them a reused Duration accumulates, and a reused Time keeps
+   its old value over From("") *)
+Lemma from_noreset_refuted :
+  (exists d0 s, valid_rel_time s = true /\ fst (dur_from_gen false d0 s) <> fst (dur_from d0 s)) /\
+  (exists v0, fst (time_from_gen false v0 []) <> fst (time_from v0 [])).
+Proof.
+  split.
+  - exists 600, [48; 48; 48; 48; 48; 48; 48; 48; 48; 49; 48; 48; 48; 48; 48; 82]%N. split; vm_compute; [reflexivity|congruence].
+  - exists (0, 0). vm_compute. congruence.
+Qed.
